@@ -7,6 +7,7 @@ package icsim
 import (
 	"math/big"
 
+	"github.com/icon-project/goloop/icon/iiss"
 	"github.com/icon-project/goloop/icon/iiss/icstate"
 	"github.com/icon-project/goloop/module"
 	"github.com/icon-project/goloop/service/state"
@@ -114,4 +115,29 @@ func VerifPRepVotes(s Simulator, owner module.Address) (delegated, bonded *big.I
 		return nil, nil
 	}
 	return p.Delegated(), p.Bonded()
+}
+
+// VerifRestart returns a simulator that continues from the last finalized block of s like a node restarted from
+// its database: world, validator and extension snapshots are rebuilt from their hashes, so every object read
+// afterwards is decoded from the stored bytes instead of coming from the in-memory object caches of s.
+func VerifRestart(s Simulator) (Simulator, error) {
+	sim := s.(*simulatorImpl)
+	old := sim.wss
+	dbase := old.Database()
+	vss, err := state.ValidatorSnapshotFromHash(dbase, old.GetValidatorSnapshot().Hash())
+	if err != nil {
+		return nil, err
+	}
+	ess := iiss.NewExtensionSnapshot(dbase, old.ExtensionData())
+	wss := state.NewWorldSnapshot(dbase, old.StateHash(), vss, ess, old.BTPData())
+	n := &simulatorImpl{
+		config:      sim.config,
+		logger:      sim.logger,
+		blockHeight: sim.blockHeight,
+		revision:    sim.revision,
+		stepPrice:   sim.stepPrice,
+		wss:         wss,
+	}
+	n.onFinalize(wss)
+	return n, nil
 }
